@@ -33,6 +33,7 @@ OBLIGATIONS = ["NiftyVerif.C16." + t for t in (
     "descent_monotone", "descent_status",
     "ls_success_wolfe", "ls_success_wolfe_fun", "ls_returns_evaluated_point",
     "vl_eq_two_loop", "buffer_window", "vl_eq_lbfgs_direction",
+    "store_gram", "store_invariant_step", "vl_run_eq_lbfgs_run",
 )]
 RULE = ("ls: generated polynomial energy x start x direction kind x LineSearch parameters, non-trivial = at least one "
         "line evaluation recorded; min: minimiser x energy x start x controller, non-trivial = at least one search; "
